@@ -441,6 +441,10 @@ def net_min(prog, rep):
     okmin = any((t.get("callee") or "").endswith("::min") for _, t in b.calls())
     cl = [prog.bodies[k] for k in prog.bodies if k.startswith("libtw2_net::net::Net::needs_tick::{closure")]
     okc = any(any((t.get("callee") or "") == "libtw2_net::connection::Connection::needs_tick" for _, t in c.calls()) for c in cl)
+    if not okc:
+        # written as a loop: conn.needs_tick() is called inside a cycle of the body that is driven by the peers iterator
+        inloop = set(x for comp in b.sccs() for x in comp)
+        okc = any((t.get("callee") or "") == "libtw2_net::connection::Connection::needs_tick" and bi in inloop for bi, t in b.calls())
     rep.ob(rule, "net | Net::needs_tick is the min over peers", okmin and okc,
            "Net::needs_tick maps every peer to conn.needs_tick() and takes the minimum", b.loc())
     oc = prog.one("<libtw2_net::time::Timestamp as optional::OptOrd>::opt_cmp")
